@@ -34,7 +34,7 @@ MANIFEST = dict(
          "listed names (libm, rand, time, terminal size) and the list names nothing else. Per-procedure no-panic / "
          "errors-iff-invalid theorems live in the files of C15 (strings, characters), C14 (lists, vectors), C08 (+ - * and "
          "integer division) and C07/C13 (every instruction error becomes a returned failure with canonical registers). "
-         "For every expression of the C01 fragments (constants, quote, if, globals, define/set!, builtin application, lambda/closures, calls by name, recursion through a global) that has a reference value, Vm::eval never panics, for any fuel: the outcome is the value or 'out of model fuel' (C06_fragment_no_panic, C06_fragment2_no_panic, C06_fragment3_no_panic). NOT proved: a no-panic theorem for the whole instruction set and for every builtin on ill-typed arguments (vm_progress is OPEN); that part is "
+         "For every expression of the C01 fragments (constants, quote, if, globals, define/set!, builtin application, lambda/closures, calls by name, recursion through a global) that has a reference value, Vm::eval never panics, for any fuel: the outcome is the value or 'out of model fuel' (C06_fragment_no_panic, C06_fragment2_no_panic, C06_fragment3_no_panic). For ANY datum and any fuel, from the booted machine and every session state, Vm::eval never panics at the VM-level sites {payload lookup, lambda / code lookup, environment slots, global slot range, continuation restore, ip decrement, stack trace} (C06_eval_no_vm_panic: an invariant - every stored value names existing payloads and code - is established by boot and preserved by the compiler, all 16 opcodes incl. apply / eval / call/cc / calling a continuation, and every builtin of the generated table); one site IS reachable and is the recorded finding eval-object-in-constant (C06_refuted_eval_object_in_constant). NOT proved: four sites that need the frame discipline of compiled code (heap index through %ep, conversion of a non-value cell, usize underflow in frame arithmetic, environment slot index), and a no-panic theorem for the whole instruction set and for every builtin on ill-typed arguments (vm_progress is OPEN); that part is "
          "decided by running every builtin x arity 0..5 x a palette of all value kinds and boundary values on the "
          "implementation (panic hook, error rendering forced, probe evaluation after each session) and on the extracted "
          "model, plus token soup through scanner, reader, evaluator, sliced evaluator and highlighter.",
